@@ -78,10 +78,12 @@ def scaleUp (v : PyVal) (sc : Scale) : R PyVal :=
   | _, _ =>
     match v with
     | .int _ | .bool _ | .float _ =>
-      match toFloat? v, scaleBits sc with
-      | .ok a, .ok b => .ok (.float (F64.round12 (F64.mul a b)))
-      | .error e, _ => .error e
-      | _, .error e => .error e
+      match toFloat? v with
+      | .error e => .error e
+      | .ok a =>
+        match scaleBits sc with
+        | .error e => .error e
+        | .ok b => .ok (.float (F64.round12 (F64.mul a b)))
     | _ => .error .typeE
 
 /-- `int(val / ares)` -/
@@ -96,13 +98,15 @@ def scaleDown (v : PyVal) (sc : Scale) : R Int :=
   | _, _ =>
     match v with
     | .int _ | .bool _ | .float _ =>
-      match toFloat? v, scaleBits sc with
-      | .ok a, .ok b =>
-        match F64.div a b with
-        | none => .error .zeroDivE
-        | some q => F64.trunc q
-      | .error e, _ => .error e
-      | _, .error e => .error e
+      match toFloat? v with
+      | .error e => .error e
+      | .ok a =>
+        match scaleBits sc with
+        | .error e => .error e
+        | .ok b =>
+          match F64.div a b with
+          | none => .error .zeroDivE
+          | some q => F64.trunc q
     | _ => .error .typeE
 
 /-- `a + b` followed by `round(·, SCALROUND)` in the `_HP` merge -/
@@ -112,10 +116,12 @@ def hpMerge (old v : PyVal) : R PyVal :=
   | _, _ =>
     match old, v with
     | .int _, .float _ | .bool _, .float _ | .float _, .int _ | .float _, .bool _ | .float _, .float _ =>
-      match toFloat? old, toFloat? v with
-      | .ok a, .ok b => .ok (.float (F64.round12 (F64.add a b)))
-      | .error e, _ => .error e
-      | _, .error e => .error e
+      match toFloat? old with
+      | .error e => .error e
+      | .ok a =>
+        match toFloat? v with
+        | .error e => .error e
+        | .ok b => .ok (.float (F64.round12 (F64.add a b)))
     | _, _ => .error .typeE
 
 /-- byte width of a single attribute: `len(self._payload)` for "CH", `attsiz` otherwise -/
